@@ -82,6 +82,10 @@ fn follow_ref<'a>(node: &'a T, path: &[usize]) -> &'a T {
     cur
 }
 
+pub fn apply_op_public(s: &mut Stream, tree: &mut T) -> &'static str {
+    apply_op(s, tree)
+}
+
 fn apply_op(s: &mut Stream, tree: &mut T) -> &'static str {
     let is_chance = |n: &T| matches!(n, T::Chance(_, o) if o.len() >= 2);
     let is_term = |n: &T| matches!(n, T::Term(_));
